@@ -273,6 +273,19 @@ func Corpus(goPkgBase string, thorough bool) []*File {
 		f.field(outer, "in", 1, "message", lOpt, "", f.full("Outer.Inner"))
 		add(f, false, "recursive / empty / nested messages, required fields reached through singular, repeated, map and oneof, field number 2^29-1")
 	}
+	// --- the only required field of the file sits in a nested message (file-level vs message-level test)
+	{
+		f := newFile("nestedreq", "proto2", goPkgBase)
+		outer := f.msg("Outer")
+		inner := &descriptorpb.DescriptorProto{Name: proto.String("Inner")}
+		f.field(inner, "id", 1, "int32", lReq, "", "")
+		outer.NestedType = append(outer.NestedType, inner)
+		f.field(outer, "in", 1, "message", lOpt, "", f.full("Outer.Inner"))
+		f.field(outer, "label", 2, "string", lOpt, "", "")
+		plain := f.msg("Plain")
+		f.field(plain, "n", 1, "int64", lOpt, "", "")
+		add(f, false, "the only required field is in a nested message; a sibling message has none")
+	}
 	// --- two nested messages with the same short name (per-message file names)
 	{
 		f := newFile("samename", "proto3", goPkgBase)
